@@ -102,6 +102,18 @@ class Detect(Obligation):
 
     def _run(self, mod, readers, hist, probe):
         """returns (selected after history, selected pristine, registry ok)"""
+        sp = getattr(self, '_space', None)
+        if sp is None or mod not in list(sp.modules.values()):
+            return self._run0(mod, readers, hist, probe)
+        # the twin: record which functions of the real source are executed
+        import sys
+        sys.setprofile(sp.profile())
+        try:
+            return self._run0(mod, readers, hist, probe)
+        finally:
+            sys.setprofile(None)
+
+    def _run0(self, mod, readers, hist, probe):
         d = self._dir()
         base = list(readers)
         # registry as class creation builds it: registerreader inserts at 0
